@@ -38,7 +38,7 @@ class MFDeviceSet(DeviceSet):
     else: # (device.hbound > 0).any():
       bounds = (np.zeros(len(device)), device.hbounds)
     for flow in flows:
-      self._devices.append(Device(flow, len(device), bounds))
+      self._devices.append(Device(flow, len(device), np.stack(bounds, axis=1)))
 
   def __len__(self):
     return self._length
